@@ -181,6 +181,29 @@ def run(ctx):
     if not okd:
         r.violate("new|initial-directive", "TransformStream::new no longer chooses the initial parser directive from initial_capture_flags().is_empty(): with no handlers the parser would start in lexer mode and hold back a leading comment / doctype / start tag until it is complete", tn.loc())
 
+    # ------------------------------------------------------------------ R09.8
+    r = ctx.rule("R09.8", "the tag scanner applies SwitchTextType / SetAllowCdata feedback itself and hands a tag to the lexer only for RequestLexeme: try_apply_tree_builder_feedback returns Some(feedback) exactly on the RequestLexeme arm", "E-MIR", floor=4)
+    ta = _mir.fn("TagScanner::try_apply_tree_builder_feedback")
+    sws = [(bi, b["term"]) for bi, b in enumerate(ta.blocks) if b["term"]["k"] == "switch" and ta.deep(b["term"]["d"]) == "discr(feedback)"]
+    fb_adt = _mir.adt("TreeBuilderFeedback")
+    vnames = [v["name"] for v in fb_adt["variants"]]
+    if len(sws) != 1:
+        r.inst("scanner-feedback|arms")
+        r.violate("scanner-feedback|arms", "TagScanner::try_apply_tree_builder_feedback no longer dispatches on the feedback variant", ta.loc())
+    else:
+        sb, sw = sws[0]
+        for val, tgt in sw["ts"]:
+            vn = vnames[val] if val < len(vnames) else str(val)
+            # what does this arm assign to the result Option before the arms join?
+            region = ta.reachable_blocks(tgt, avoid=[x[1] for x in sw["ts"] if x[1] != tgt])
+            somes = [1 for bi in region for st in ta.blocks[bi]["stmts"] if st["k"] == "assign" and st["rv"]["k"] == "agg" and (st["rv"].get("name") or "").endswith("Option::Some") and "feedback" == ta.deep(st["rv"]["ops"][0])] if True else []
+            firstb = ta.blocks[tgt]
+            arm_some = any(st["k"] == "assign" and st["rv"]["k"] == "agg" and (st["rv"].get("name") or "").endswith("Option::Some") and ta.deep(st["rv"]["ops"][0]) == "feedback" for st in firstb["stmts"])
+            r.inst("scanner-feedback|" + vn, sample={"variant": vn, "hands_to_lexer": arm_some})
+            want = (vn == "RequestLexeme")
+            if arm_some != want:
+                r.violate("scanner-feedback|" + vn, f"TagScanner::try_apply_tree_builder_feedback {'hands' if arm_some else 'does not hand'} a tag with {vn} feedback to the lexer; only RequestLexeme needs the full tag — e.g. every <script>/<style>/<textarea>/<title> start tag would be lexed and held back until its `>`", ta.loc())
+
     # ------------------------------------------------------------------ R09.5 (shared with C03 R03.8)
     # a RequestLexeme answer makes the tag scanner hand the whole tag to the lexer, which holds its bytes back
     # until the tag is complete: it may be given only where the specification-derived table needs the full tag
